@@ -48,7 +48,12 @@ impl Row {
     fn cp_text(&self) -> String {
         let w = self.width as usize;
         match (&self.mal, self.end) {
-            (Mal::BadCp(k), _) => match k % 16 {
+            (Mal::BadCp(k), _) => match k % 20 {
+                // numbers far above U+10FFFF whose low 32 / 64 bits are a valid code point (17 and 25 hexadecimal digits, 9 digits)
+                16 => format!("1{}{:04X}", "0".repeat(12), self.start & 0xffff),
+                17 => format!("1{:08X}", self.start),
+                18 => format!("{:0w$X}-3{}{:06X}", self.start, "0".repeat(10), self.end.unwrap_or(self.start)),
+                19 => format!("7{}{:06X}-7{}{:06X}", "0".repeat(18), self.start, "0".repeat(18), self.end.unwrap_or(self.start)),
                 0 => String::new(),
                 1 => format!("{:0w$X}G", self.start),
                 2 => "ZZZZ".to_string(),
@@ -223,6 +228,14 @@ pub fn ref_line(line: &str) -> RefLine {
     }
     if cps.chars().any(|c| c.is_whitespace()) {
         unspecified = true; // whether blanks around a code point are tolerated is not part of the statement
+    }
+    // a hexadecimal number above 10FFFF, however long, is not a code point
+    let too_big = |s: &str| !s.is_empty() && s.bytes().all(|b| b.is_ascii_hexdigit()) && {
+        let t = s.trim_start_matches('0');
+        t.len() > 6 || u32::from_str_radix(if t.is_empty() { "0" } else { t }, 16).map(|v| v > 0x10ffff).unwrap_or(true)
+    };
+    if too_big(cps) || cps.split_once('-').map(|(a, b)| too_big(a) || too_big(b)).unwrap_or(false) {
+        return RefLine::Malformed;
     }
     if hexok(cps) {
         let v = u32::from_str_radix(cps, 16).unwrap();
@@ -406,7 +419,7 @@ pub fn row_strategy(mal_weight: u32) -> BoxedStrategy<Row> {
         (100 - mal_weight) => Just(Mal::None),
         mal_weight / 3 + 1 => (0u8..3).prop_map(Mal::DropFields),
         mal_weight / 3 + 1 => (0u8..16).prop_map(Mal::BadProp),
-        mal_weight / 3 + 1 => (0u8..16).prop_map(Mal::BadCp),
+        mal_weight / 3 + 1 => (0u8..20).prop_map(Mal::BadCp),
     ];
     (cp.clone(), proptest::option::weighted(0.4, cp), 4u8..=6, 0u8..7, proptest::option::weighted(0.3, (0u8..7, 1u8..=3, 1u8..=3)), desc_strategy(), mal)
         .prop_map(|(a, b, width, p1, p2, desc, mal)| {
@@ -424,7 +437,7 @@ pub fn run(run: &Run) {
         "Generator: structured rows: code point or start-end (4-6 upper-case hex digits, zero padded, all values 0..=0x10FFFF incl. surrogates, start <= end), \
          one of the 7 property names or an ordered pair joined by 'or' with 1-3 blanks either side, description = arbitrary text without line terminators \
          (commas, quotes, non-ASCII, empty); malformed rows by construction: 0/1/2 fields only, 16 bad property spellings (typo, lower case, dangling or \
-         leading 'or', unknown member, 'and', a valid single/pair with junk or a third member before or after it), 16 bad code point spellings (empty, non-hex, \
+         leading 'or', unknown member, 'and', a valid single/pair with junk or a third member before or after it), 20 bad code point spellings (numbers of 9 / 17 / 25 hexadecimal digits whose low 32 / 64 bits are a valid code point, empty, non-hex, \
          > 10FFFF, dangling/doubled/tripled '-', blank inside, '..', 'U+', '0x', junk prefix/suffix); whole files \
          (header + 0..12 rows, and big files of 100..600 rows with descriptions up to 300 characters; LF or CRLF, with/without final newline; files with single lines of 4 KiB .. 32 MiB) written under /verif/work and read through \
          CsvLineParser::from_path by sequential iteration AND by nth/skip/step_by/last/count on a fresh parser; every \
@@ -525,7 +538,12 @@ pub fn run(run: &Run) {
     // huge lines: descriptions around the usual buffer / limit sizes, followed by normal and malformed rows
     let base4 = base.clone();
     run.par("huge_lines", true, |tid, n, l| {
-        let sizes = [4095usize, 4096, 4097, 8190, 8191, 8192, 8193, 16384, 65534, 65535, 65536, 65537, 70000, 131071, 131073, 300000, 1 << 20, (1 << 20) + 1, 4 << 20, (16 << 20) - 1, (16 << 20) + 100, (32 << 20) + 7];
+        let mut sizes = vec![4095usize, 4096, 4097, 8190, 8191, 8192, 8193, 16384, 65534, 65535, 65536, 65537, 70000, 131071, 131073, 300000, 1 << 20, (1 << 20) + 1, 4 << 20, (16 << 20) - 1, (16 << 20) + 100, (32 << 20) + 7, (64 << 20) + 5];
+        if run.tier == Tier::Thorough {
+            sizes.push((128 << 20) + 3);
+        }
+        // the largest first, so that they do not all end up on one thread at the end
+        sizes.reverse();
         for (i, sz) in sizes.iter().enumerate() {
             if i % n != tid {
                 continue;
